@@ -1,5 +1,3 @@
+-- Root of the library. Every module under TT/ is built through the `globs` of the lakefile;
+-- theorem modules (TT/Props/*) are deliberately not imported into one file.
 import TT.Model.Basic
-import TT.Model.Values
-import TT.Model.Keys
-import TT.Model.Wire
-import TT.Model.Normalize
